@@ -96,6 +96,18 @@ CHECKS = {
         "Trusted: the probe binary (harness/src/golden_probe.rs, 15 lines) and strace's decoding of open flags.",
         "4/C20",
     ),
+    "C13": (
+        "runtime monitor: each (command, input) run in N fresh processes of the real binary (fresh hash seed each), exit status / stdout / stderr compared byte for byte; inputs biased to where hash order can leak",
+        "1400 (quick) / 6000 (thorough) inputs x 2-4 commands x 6 / 20 fresh processes: generated ledgers (balance, register, accounts, format), accounts with 3-6 commodities and multi-commodity inferred postings, failing assertions / assignments / residuals in several commodities (error text), equal-distance price chains of different rate and several unconvertible commodities (balance -X, --historical, primitive eval -X), random price scenarios, include trees with globs (flatten, balance), CSV imports with multi-matcher rules. Probabilistic in the hash seed: a 3-commodity hash-ordered print escapes 6 runs with probability < 1e-3 per input.",
+        "The wall clock cannot be moved here; --now is always explicit. One genuine defect found and fixed (hash-order dependent conversion ties and error text).",
+        "4/C13",
+    ),
+    "C16": (
+        "runtime monitor: consistent generated statements rendered under random CSV layouts and configurations through the real importer; tree compared row by row with the generator's ground truth; imported text fed to okane's own book-keeping",
+        "2*10^4 (quick) / 10^6 (thorough) statements (1-8 rows) x random layout (index/label/template columns, 3 delimiters, skipped head lines, 4 date formats, amount or credit/debit columns, asset/liability, both row orders, commodity / balance / rate / secondary amount / secondary commodity / charge / note / category columns, 3 number styles, both rate modes, extracted or computed conversion): per row the configured account moves by the row's signed amount with the running balance asserted, the counter posting carries the opposite amount or the secondary amount with the rate on the commodity it prices, rows come out oldest first; for asset accounts funding + import output is accepted by report::process and ends at the statement's last balance.",
+        "Trusted: the statement generator keeps the ground truth it renders. Charges only on foreign-currency rows (the statement does not define a charge on a plain row).",
+        "4/C16",
+    ),
 }
 
 NOT_APPLICABLE = []
